@@ -19,7 +19,7 @@ ASSUMPTIONS = [
     "the filtered-vs-unfiltered law is judged with externals excluded",
 ]
 
-SHAPES = ["text", "*text", "text*", "*text*", "*/text", "*text-part"]
+SHAPES = ["text", "*text", "text*", "*text*", "*/text", "*text-part", "name", "name*", "*text/*", "*text/"]
 
 
 def glob_table(alphabet, maxp, maxs, timeout=3000):
@@ -69,18 +69,23 @@ def episode_for(project, rng, n_entries, with_pairs=True):
     rng.shuffle(entries)
     for e in entries[:n_entries]:
         shapes = sc.glob_shapes(project, e, rng)
-        for sh in (SHAPES if n_entries > 50 else rng.sample(SHAPES, 3)):
+        for sh in (SHAPES if n_entries > 50 else rng.sample(SHAPES, 4)):
             sx = ep.scan(excl={"kind": "glob", "patterns": [shapes[sh]]})
             ep.law("excl", [s0, sx])
-            if sh in ("text", "*text", "text*", "*text*") and rng.random() < 0.5:
+            if rng.random() < 0.5:
                 sr = ep.scan(excl={"kind": "regex", "patterns": [shapes[sh]], "from_glob": True})
                 ep.law("excl", [s0, sr])
                 ep.law("same", [sx, sr])
     if with_pairs and len(entries) >= 2:
         a, b = entries[0], entries[1]
         pa, pb = sc.glob_shapes(project, a, rng), sc.glob_shapes(project, b, rng)
-        s2 = ep.scan(excl={"kind": "glob", "patterns": [pa[rng.choice(SHAPES)], pb[rng.choice(SHAPES)]]})
+        two = [pa[rng.choice(SHAPES)], pb[rng.choice(SHAPES)]]
+        s2 = ep.scan(excl={"kind": "glob", "patterns": two})
         ep.law("excl", [s0, s2])
+        # the same two patterns as regular expressions, as a tuple or as one expression with a top-level alternation
+        s3 = ep.scan(excl={"kind": "regex", "patterns": two, "from_glob": True, "join": rng.random() < 0.6})
+        ep.law("excl", [s0, s3])
+        ep.law("same", [s2, s3])
         # a plain literal text used as a regular expression is anchored at the start only: text as regex = glob text*
         sl = ep.scan(excl={"kind": "regex", "patterns": [sc.entry_path(a)], "escape": True})
         sg = ep.scan(excl={"kind": "glob", "patterns": [sc.entry_path(a) + "*"]})
